@@ -64,6 +64,16 @@ def collect(tier, seed):
     step = 1 if tier != 'quick' else 7
     for i, (st, bs, origin) in enumerate(cases[::step]):
         lines['d%d' % i] = ('(decode2 %s %s)' % (hx(st), hx(bs)), 'datum:' + origin, {'schema': st, 'bytes': bs.hex()})
+    # A2. lengths declared by the SCHEMA (fixed sizes) reaching both decoders: above and below every limit
+    k2 = 0
+    for size in [0, 1, 4095, 4097, 70000, (1 << 20) + 1, 1 << 24, 1 << 31, 1 << 40, (1 << 63) - 1, 1 << 63, (1 << 64) - 1]:
+        for st in ['{"type":"fixed","name":"F","size":%d}' % size,
+                   '{"type":"record","name":"R","fields":[{"name":"a","type":"int"},{"name":"f","type":["null",{"type":"fixed","name":"F","size":%d}]}]}' % size,
+                   '{"type":"array","items":{"type":"fixed","name":"F","size":%d,"logicalType":"decimal","precision":2}}' % size,
+                   '{"type":"fixed","name":"F","size":%d,"logicalType":"duration"}' % size,
+                   '{"type":"map","values":{"type":"fixed","name":"F","size":%d,"logicalType":"uuid"}}' % size]:
+            for bs in [b'', b'\x02\x02', b'\x00' * 40, b'\x02\x02ab' + b'x' * 30]:
+                lines['a%d' % k2] = ('(decode2 %s %s)' % (hx(st), hx(bs)), 'datum:schema-declared-size', {'schema': st, 'bytes': bs.hex()}); k2 += 1
     # B. container files: valid files truncated / altered, hostile framing
     k = 0
     for i in range(6 if tier == 'quick' else 60):
@@ -125,8 +135,9 @@ def judge(run, lines, out):
                 continue
             # no single request above the limit (plus the incidental allocations of the call itself)
             work = CODEC_WORK.get(info.get('codec'), 0)
-            if largest > lim + SLACK + work and '"map"' in str(info.get('schema', '')) + bytes.fromhex(info.get('file', '')[:400 - len(info.get('file', '')[:400]) % 2]).decode('latin1') \
-               and largest <= int(2.5 * lim) + SLACK:
+            # a map block (in the data, or the metadata map of a container header) announcing a count within the limit
+            has_map = '"map"' in str(info.get('schema', '')) or kind.startswith('container')
+            if largest > lim + SLACK + work and has_map and largest <= int(2.5 * lim) + SLACK + work:
                 run.fail('map-capacity-rounding', '%s requested %d bytes at once under a %d-byte limit (hash table for a declared map block)' % (kind, largest, lim), case)
             elif largest > lim + SLACK + work:
                 run.fail('over-allocation', '%s requested %d bytes at once under a %d-byte limit' % (kind, largest, lim), case)
